@@ -116,6 +116,14 @@ CHECKS["C06"] = dict(
     design="DESIGN.md §6 C06",
 )
 
+CHECKS["C16"] = dict(
+    category="exploration",
+    technique="exhaustive input enumeration (IX) of SOCKS5 greetings/requests and forced TCP fragmentations through the real front-end, Client, TLS, Server and handler on loopback (LX), against a reference SOCKS5 model",
+    text="Versions {0,4,5,6,255} x every method list of length <= 3 over {00,01,02,80,ff} (+ 255-long lists with 00 first / last / absent); every command byte 0..=255; reserved byte, request version, address types {0,1,2,3,4,5,255}, domain lengths {0,1,255}, unresolvable / invalid names, ::1, a refusing port; every truncation of the request; the canonical IPv4 and domain exchanges and 8 multi-method greetings under every single forced TCP cut and byte-at-a-time. Reference: 05 00 iff version 5 and 00 offered, otherwise refusal; a tunnel (echo through the requested target, nothing at any other target) iff CONNECT with a valid address to an accepting target, and 'succeeded' only then; failures are a non-zero reply or a close and end only that connection (a canonical request afterwards still succeeds).",
+    note="Trusted: harness echo targets on 127.0.0.1 / 127.0.0.2 / ::1 and a reserved refusing port; fragmentation forced by waiting for the front-end's receive queue to drain (/proc/net/tcp); real time, timing-independent oracle (waits exceed every documented timeout).",
+    design="DESIGN.md §6 C16",
+)
+
 NOT_YET = {
 }
 
